@@ -94,6 +94,11 @@ pub(crate) trait EvictionStore<K, V>: Send {
     }
 }
 
+/// Room reserved up front at most: the stores grow as needed, and reserving `max_size`
+/// entries overflows the capacity computation for a very large bound (e.g. `usize::MAX`
+/// for "unbounded") or wastes memory.
+const MAX_PREALLOCATED: usize = 1024;
+
 /// LRU (Least Recently Used) cache storage.
 pub(crate) struct LruStore<K, V> {
     cache: lru::LruCache<K, V>,
@@ -102,9 +107,14 @@ pub(crate) struct LruStore<K, V> {
 impl<K: Hash + Eq, V> LruStore<K, V> {
     pub(crate) fn new(capacity: usize) -> Self {
         let cap = NonZeroUsize::new(capacity).unwrap_or(NonZeroUsize::new(100).unwrap());
-        Self {
-            cache: lru::LruCache::new(cap),
-        }
+        let cache = if capacity <= MAX_PREALLOCATED {
+            lru::LruCache::new(cap)
+        } else {
+            let mut cache = lru::LruCache::unbounded();
+            cache.resize(cap);
+            cache
+        };
+        Self { cache }
     }
 }
 
@@ -140,8 +150,8 @@ pub(crate) struct LfuStore<K, V> {
 impl<K: Hash + Eq + Clone, V> LfuStore<K, V> {
     pub(crate) fn new(capacity: usize) -> Self {
         Self {
-            data: HashMap::with_capacity(capacity),
-            frequencies: HashMap::with_capacity(capacity),
+            data: HashMap::with_capacity(capacity.min(MAX_PREALLOCATED)),
+            frequencies: HashMap::with_capacity(capacity.min(MAX_PREALLOCATED)),
             capacity: capacity.max(1),
         }
     }
@@ -215,8 +225,8 @@ pub(crate) struct FifoStore<K, V> {
 impl<K: Hash + Eq + Clone, V> FifoStore<K, V> {
     pub(crate) fn new(capacity: usize) -> Self {
         Self {
-            data: HashMap::with_capacity(capacity),
-            order: VecDeque::with_capacity(capacity),
+            data: HashMap::with_capacity(capacity.min(MAX_PREALLOCATED)),
+            order: VecDeque::with_capacity(capacity.min(MAX_PREALLOCATED)),
             capacity: capacity.max(1),
         }
     }
